@@ -176,8 +176,12 @@ theorem onAcknack_depth (d : Nat) (h1 : 1 ≤ d) (s : St) (rid base : Nat) (set 
 
 theorem step_depth (d : Nat) (h1 : 1 ≤ d) (s : St) (e : Ev) (h : DepthInv d s) : DepthInv d (step s e).1 := by
   cases e with
-  | write k v ts now => exact methodWrite_depth d h1 s k v ts now h
-  | acknack rid base set count now => exact onAcknack_depth d h1 s rid base set count now h
+  | write k v ts now =>
+    have hr := removeStale_frame s now
+    exact methodWrite_depth d h1 _ k v ts now ⟨by rw [hr.1]; exact h.1, by rw [hr.2.1]; exact h.2⟩
+  | acknack rid base set count now =>
+    have hr := removeStale_frame s now
+    exact onAcknack_depth d h1 _ rid base set count now ⟨by rw [hr.1]; exact h.1, by rw [hr.2.1]; exact h.2⟩
   | tick now => exact tick_depth d h1 s now h
   | matchReader rid rel tl =>
     have hf := matchReader_frame s rid rel tl
@@ -231,5 +235,29 @@ theorem processPending_qos (s : St) (now : Int) : (processPending s now).1.qos =
   · split
     · split <;> simp [entOut, entWrite_qos, evict]
     · rfl
+
+theorem methodWrite_qos (s : St) (k : Nat) (v : Int) (ts now : Int) : (methodWrite s k v ts now).1.qos = s.qos := by
+  simp only [methodWrite]
+  split
+  · split
+    · split <;> rfl
+    · simp [entOut, entWrite_qos, evict]
+  · simp [entOut, entWrite_qos]
+
+/-- no event changes the QoS -/
+theorem step_qos (s : St) (e : Ev) : (step s e).1.qos = s.qos := by
+  cases e with
+  | write k v ts now => simp only [step]; rw [methodWrite_qos, (removeStale_frame s now).1]
+  | acknack rid base set count now =>
+    simp only [step, onAcknack]; rw [processPending_qos]; exact (removeStale_frame s now).1
+  | tick now =>
+    simp only [step, tick, tickRest]
+    rw [(poke_frame _ now).1, processPending_qos, (checkTimeout_frame _ now).1, (removeStale_frame s now).1]
+  | matchReader rid rel tl => simp [step, matchReader]
+
+theorem run_qos (evs : List Ev) : ∀ s : St, (run s evs).qos = s.qos := by
+  induction evs with
+  | nil => intro s; rfl
+  | cons e es ih => intro s; simp only [run]; rw [ih, step_qos]
 
 end DustVerif.Wrt
